@@ -10,7 +10,7 @@ use crate::gen::expr::{self, GenCfg};
 use crate::out::{guarded, Args, Report};
 use crate::render;
 use crate::rng::Rng;
-use chrono::{Duration, NaiveDate, NaiveDateTime, TimeZone};
+use chrono::{Datelike, Duration, NaiveDate, NaiveDateTime, TimeZone};
 use chrono_tz::Tz;
 use opening_hours::localization::{Coordinates, TzLocation};
 use opening_hours::verif_hooks as hooks;
@@ -26,7 +26,7 @@ const DICT: [&str; 70] = [
     "-", ",", ", ", ";", " ; ", "||", " || ", ":", " ", "  ", "00:00", "24:00", "24:01", "48:00", "48:01", "10:00-12:00", "sunrise", "(sunset+24:00)", "(dusk+06:01)-00:01", "dawn-dusk", "off", "closed", "unknown", "open", "99999999999999999999",
 ];
 
-fn sample_lines() -> Vec<String> {
+pub fn sample_lines() -> Vec<String> {
     let path = format!("{}/opening-hours/src/tests/data/sample.txt", super::c10::repo_root());
     std::fs::read_to_string(path).map(|t| t.lines().map(|l| l.to_string()).collect()).unwrap_or_default()
 }
@@ -44,7 +44,7 @@ fn tokenize(s: &str) -> Vec<String> {
     out
 }
 
-fn mutate(r: &mut Rng, base: &str) -> String {
+pub fn mutate(r: &mut Rng, base: &str) -> String {
     let mut toks = tokenize(base);
     let n = 1 + r.below(3);
     for _ in 0..n {
@@ -268,6 +268,163 @@ pub fn check_string_with(text: &str, r: &mut Rng, rep: Option<&mut Report>, unbo
     Ok(true)
 }
 
+
+/// Hostile holiday calendars: the property quantifies over *any* holiday calendars, and a
+/// `CompactCalendar` holds any `NaiveDate` - including the first and last representable dates, where
+/// `date + offset` stops being representable. Every calendar x holiday selector with an offset x
+/// instant is evaluated through every public call under the usual step budgets.
+fn hostile_calendar(name: &str) -> (compact_calendar::CompactCalendar, compact_calendar::CompactCalendar) {
+    let mut p = compact_calendar::CompactCalendar::default();
+    let mut s = compact_calendar::CompactCalendar::default();
+    let dates: Vec<NaiveDate> = match name {
+        "max_only" => vec![NaiveDate::MAX],
+        "max_edge" => [0i64, 1, 2, 7, 8, 366, 367].iter().map(|k| NaiveDate::MAX - Duration::days(*k)).collect(),
+        "min_only" => vec![NaiveDate::MIN],
+        "min_edge" => [0i64, 1, 2, 7, 8, 366, 367].iter().map(|k| NaiveDate::MIN + Duration::days(*k)).collect(),
+        "limit_high" => vec![NaiveDate::from_ymd_opt(9999, 12, 30).unwrap(), NaiveDate::from_ymd_opt(9999, 12, 31).unwrap(), NaiveDate::from_ymd_opt(10_000, 1, 1).unwrap(), NaiveDate::from_ymd_opt(10_000, 1, 2).unwrap()],
+        _ => vec![NaiveDate::from_ymd_opt(1899, 12, 30).unwrap(), NaiveDate::from_ymd_opt(1899, 12, 31).unwrap(), NaiveDate::from_ymd_opt(1900, 1, 1).unwrap(), NaiveDate::from_ymd_opt(1900, 1, 2).unwrap()],
+    };
+    for d in dates {
+        p.insert(d);
+        s.insert(d);
+    }
+    (p, s)
+}
+
+const HOSTILE_CALENDARS: [&str; 6] = ["max_only", "max_edge", "min_only", "min_edge", "limit_high", "limit_low"];
+
+fn check_hostile_calendar(cal: &str, text: &str, t: NaiveDateTime) -> Result<bool, String> {
+    let Ok(Ok(oh)) = guarded(|| OpeningHours::parse(text)) else { return Ok(false) };
+    let ast = opening_hours_syntax::parse(text).map_err(|e| format!("{text:?}: {e}"))?;
+    let size = size_of(&ast);
+    let (p, s) = hostile_calendar(cal);
+    let ctx = Context::default().with_holidays(opening_hours::ContextHolidays::new(std::sync::Arc::new(p), std::sync::Arc::new(s)));
+    let o = oh.with_context(ctx);
+    let what = format!("of {text:?} with the holiday calendar `{cal}` (dates at the edge of the representable / supported range)");
+    bounded(&format!("schedule_at({}) {what}", t.date()), &size, 1, || o.schedule_at(t.date()).into_iter().count())?;
+    bounded(&format!("state({t}) {what}"), &size, 2, || o.state(t))?;
+    let to = t.checked_add_signed(Duration::days(400)).unwrap_or(t);
+    bounded(&format!("iter_range({t}, {to}) {what}"), &size, 402, || o.iter_range(t, to).count())?;
+    let from_day = t.date().max(NaiveDate::from_ymd_opt(1899, 12, 31).unwrap());
+    let days = (NaiveDate::from_ymd_opt(10_000, 1, 1).unwrap() - from_day).num_days().max(0) as u64 + 3;
+    // (an expression that never changes state walks day by day to the end of the range: the
+    //  library's designed worst case, seconds per call - not repeated for every calendar here)
+    if !text.starts_with("24/7") || (cal == "limit_high" && t.date().year() >= 9999) {
+        bounded(&format!("next_change({t}) {what}"), &size, days, || o.next_change(t))?;
+    }
+    Ok(true)
+}
+
+fn hostile_calendar_cases() -> Vec<(String, String, NaiveDateTime)> {
+    let mut v = Vec::new();
+    let at = |d: NaiveDate, h: u32, m: u32| d.and_hms_opt(h, m, 0).unwrap();
+    let ymd = |y, m, d| NaiveDate::from_ymd_opt(y, m, d).unwrap();
+    let instants = [
+        at(ymd(1899, 12, 31), 23, 0),
+        at(ymd(1900, 1, 1), 0, 0),
+        at(ymd(2024, 6, 15), 12, 0),
+        at(ymd(9999, 12, 30), 0, 0),
+        at(ymd(9999, 12, 31), 23, 59),
+        at(ymd(10_000, 1, 1), 0, 0),
+        at(NaiveDate::MAX - Duration::days(2), 10, 0),
+        at(NaiveDate::MAX, 23, 59),
+        at(NaiveDate::MIN + Duration::days(2), 10, 0),
+        at(NaiveDate::MIN, 0, 0),
+    ];
+    let offs: [i64; 15] = [0, 1, -1, 2, -2, 7, -7, 366, -366, 367, -367, 2_000_000, -2_000_000, 2_964_600, -2_964_600];
+    for cal in HOSTILE_CALENDARS {
+        for kind in ["PH", "SH"] {
+            for o in offs {
+                if kind == "SH" && o != 0 {
+                    continue; // the grammar has day offsets for PH only
+                }
+                let sel = if o == 0 { kind.to_string() } else { format!("{kind} {}{} day{}", if o < 0 { '-' } else { '+' }, o.abs(), if o.abs() == 1 { "" } else { "s" }) };
+                for text in [sel.clone(), format!("{sel} 10:00-12:00; Mo 08:00-09:00"), format!("Mo-Fr 08:00-18:00; {sel} off"), format!("{sel},Su 22:00-26:00"), format!("24/7; {sel} closed \"c\"")] {
+                    for t in instants {
+                        v.push((cal.to_string(), text.clone(), t));
+                    }
+                }
+            }
+        }
+    }
+    v
+}
+
+fn hostile_calendars(args: &Args, rep: &mut Report) {
+    for (i, (cal, text, t)) in hostile_calendar_cases().into_iter().enumerate() {
+        if (i as u64) % args.of.max(1) != args.worker || rep.full() {
+            continue;
+        }
+        rep.evaluations += 1;
+        rep.begin(&format!("{text:?} with calendar {cal} at {t}"));
+        match check_hostile_calendar(&cal, &text, t) {
+            Ok(true) => rep.count("hostile_calendar_cases"),
+            Ok(false) => rep.count("hostile_calendar_expression_rejected"),
+            Err(msg) => rep.violation("totality", msg, json!({"expr": text, "hostile_calendar": cal, "instant": t.to_string()}), None),
+        }
+    }
+}
+
+
+/// Far day offsets: the parser accepts day offsets of up to 2 964 600 days (about 8 100 years), so a
+/// weekday / date selector evaluates its calendar arithmetic (days in the month, weekday, leap
+/// days) on dates shifted as far as year -6200 or +18100. One walk over the whole supported range
+/// per expression visits *every* day of those shifted years; the range is split between the workers.
+const FAR_OFFSET_EXPRESSIONS: [&str; 12] = [
+    "Tu[-1] +2964600 days 10:00-12:00",
+    "Mo[1] -2964600 days",
+    "Su[5] +2964600 days",
+    "Sa[-5] -2964600 days 22:00-26:00",
+    "We[-1] +1482300 days",
+    "Fr[-2,2] +2222222 days",
+    "Th[-3] +1000000 days",
+    "Mo-Su[-4] +694000 days",
+    "Feb 29 +2964600 days",
+    "easter -2964600 days",
+    "Jan 31 -1500000 days-Mar 01 -1500000 days",
+    "PH +2964600 days",
+];
+
+fn check_far_offset(text: &str, part: u64, of: u64) -> Result<u64, String> {
+    let Ok(Ok(oh)) = guarded(|| OpeningHours::parse(text)) else { return Ok(0) };
+    let ast = opening_hours_syntax::parse(text).map_err(|e| format!("{text:?}: {e}"))?;
+    let size = size_of(&ast);
+    let first = NaiveDate::from_ymd_opt(1900, 1, 1).unwrap();
+    let total = (NaiveDate::from_ymd_opt(10_000, 1, 1).unwrap() - first).num_days() as u64;
+    let a = first + Duration::days((total * part / of) as i64);
+    let b = first + Duration::days((total * (part + 1) / of) as i64);
+    let days = (b - a).num_days() as u64;
+    let n = bounded(&format!("iter_range({a}, {b}) of {text:?} (walk over the whole supported range, one part per worker)"), &size, days + 2, || {
+        oh.iter_range(a.and_hms_opt(0, 0, 0).unwrap(), b.and_hms_opt(0, 0, 0).unwrap()).count()
+    })?;
+    Ok(n as u64)
+}
+
+fn far_offsets(args: &Args, rep: &mut Report) {
+    let of = args.of.max(1);
+    for (i, text) in FAR_OFFSET_EXPRESSIONS.iter().enumerate() {
+        if rep.full() {
+            return;
+        }
+        // date selectors with far offsets widen their window of years by what the offset reaches:
+        // thousands of years scanned per day-step (legitimate, but minutes per walk) - thorough only
+        if !args.thorough() && (text.starts_with("easter") || text.starts_with("Jan 31")) {
+            continue;
+        }
+        // every worker walks its own part of the range for every expression
+        let part = (args.worker + i as u64) % of;
+        rep.evaluations += 1;
+        rep.begin(&format!("far offset walk {text:?} part {part}/{of}"));
+        match check_far_offset(text, part, of) {
+            Ok(n) => {
+                rep.count("far_offset_walks");
+                rep.add("far_offset_intervals", n);
+            }
+            Err(msg) => rep.violation("totality", msg, json!({"expr": text, "far_offset_part": part, "far_offset_of": of}), None),
+        }
+    }
+}
+
 fn case_of(text: &str, seed: (u64, u64, u64)) -> Value {
     json!({"expr": text, "seed": seed.0, "worker": seed.1, "index": seed.2})
 }
@@ -275,6 +432,12 @@ fn case_of(text: &str, seed: (u64, u64, u64)) -> Value {
 pub fn run(args: &Args, rep: &mut Report) {
     let samples = sample_lines();
     rep.add("sample_lines_loaded", samples.len() as u64);
+    let t0 = std::time::Instant::now();
+    hostile_calendars(args, rep);
+    rep.add("hostile_calendars_ms", t0.elapsed().as_millis() as u64);
+    let t0 = std::time::Instant::now();
+    far_offsets(args, rep);
+    rep.add("far_offsets_ms", t0.elapsed().as_millis() as u64);
     let n = args.cases(320_000, 6_000_000);
     for k in 0..n {
         let mut r = Rng::new(args.seed, args.worker, k);
@@ -367,6 +530,19 @@ pub fn run(args: &Args, rep: &mut Report) {
 pub fn replay(_args: &Args, case: &Value, rep: &mut Report) {
     let text = case_expr(case);
     rep.evaluations += 1;
+    if let Some(of) = case["far_offset_of"].as_u64() {
+        if let Err(msg) = check_far_offset(&text, case["far_offset_part"].as_u64().unwrap_or(0), of) {
+            rep.violation("totality", msg, case.clone(), None);
+        }
+        return;
+    }
+    if let Some(cal) = case["hostile_calendar"].as_str() {
+        let t = chrono::NaiveDateTime::parse_from_str(case["instant"].as_str().unwrap_or(""), "%Y-%m-%d %H:%M:%S").unwrap_or_default();
+        if let Err(msg) = check_hostile_calendar(cal, &text, t) {
+            rep.violation("totality", msg, case.clone(), None);
+        }
+        return;
+    }
     // contexts and instants are drawn from the recorded stream and a few more
     for k in 0..40u64 {
         let mut r = if k == 0 {
